@@ -220,6 +220,8 @@ class Interp:
             return True
         if isinstance(v, SReal):
             return self.ctx.branch(v.t != 0)
+        if type(v).__name__ in ("OpenDict", "OpenItems"):
+            raise Unsupported("truth value of a dict of unknown size (open dict)")
         return True
 
     def symtruth(self, v):
@@ -262,6 +264,8 @@ class Interp:
                 return False
             return ops.b_and(*[self.symtruth(self.eq(x, y)) for x, y in zip(a, b)])
         if isinstance(a, PyList) and isinstance(b, PyList):
+            if a.prefix is not None or b.prefix is not None:
+                return self.bm.open_list_eq(self, a, b)
             if len(a.items) != len(b.items):
                 return False
             return ops.b_and(*[self.symtruth(self.eq(x, y)) for x, y in zip(a.items, b.items)])
@@ -324,6 +328,9 @@ class Interp:
             return ops.b_or(*[self.symtruth(self.eq(x, item)) for x in container])
         if isinstance(container, PyDict):
             return ops.b_or(*[self.symtruth(self.eq(k, item)) for k, _ in container.pairs])
+        if type(container).__name__ == "OpenDict":
+            from . import opendict
+            return opendict.lookup(self, container, item) is not opendict.ABSENT
         if isinstance(container, str) and isinstance(item, str):
             return item in container
         if isinstance(container, BytesV):
@@ -1130,6 +1137,18 @@ class Interp:
         return PySet(out)
 
     def ex_DictComp(self, e, fr):
+        from . import opendict
+        if len(e.generators) == 1:
+            g = e.generators[0]
+            src = self.eval(g.iter, fr)
+            if isinstance(src, opendict.OpenItems):
+                # {k: v for k, v in d.items() if cond}: only the identity mapping keeps the dict "open"
+                t = g.target
+                if (isinstance(t, ast.Tuple) and len(t.elts) == 2 and all(isinstance(x, ast.Name) for x in t.elts)
+                        and isinstance(e.key, ast.Name) and isinstance(e.value, ast.Name)
+                        and e.key.id == t.elts[0].id and e.value.id == t.elts[1].id):
+                    return opendict.derive(self, src.d, g, fr)
+                raise Unsupported("dict comprehension over an open dict that is not a plain filter")
         d = PyDict()
         self._comp(e.generators, fr, lambda f: self.dict_set(d, self.eval(e.key, f), self.eval(e.value, f)))
         return d
